@@ -33,7 +33,9 @@ mutual
       match toks with
       | [] => none
       | t :: r =>
-        if t = "f32" then some (.f32, r) else if t = "f64" then some (.f64, r)
+        -- `named T`: a declared named Go type with underlying type T encodes and decodes like T
+        if t = "named" then parseTyF fuel r
+        else if t = "f32" then some (.f32, r) else if t = "f64" then some (.f64, r)
         else if t = "str" then some (.str, r) else if t = "bool" then some (.bool, r)
         else if t = "bytes" then some (.bytes, r) else if t = "time" then some (.time, r)
         else if t = "dur" then some (.dur, r) else if t = "uuid" then some (.uuid, r)
